@@ -733,6 +733,31 @@ pub fn run(property: &'static str, tier: Tier) -> Vec<Part> {
     parts
 }
 
+/// C07 / C08 on traffic: every message emitted in a few small explorations is checked (size and
+/// delta content against the sender's state; announced length, independent decoder, round trip).
+pub fn run_traffic(property: &'static str, tier: Tier) -> Vec<Part> {
+    let props: Vec<&'static str> = vec![property];
+    let mut parts = vec![];
+    let all = plans(&props, tier);
+    // the handshake-granularity plans (small values, 40 KB values incl. non-initial roots) and one message-granularity plan
+    let pick: Vec<usize> = match tier {
+        Tier::Quick => vec![0, 4, 6, 7, 8, 9],
+        Tier::Thorough => (0..all.len()).filter(|i| ![3usize, 6, 7].contains(i)).collect(),
+    };
+    for (i, plan) in all.into_iter().enumerate() {
+        if !pick.contains(&i) {
+            continue;
+        }
+        let ex = explore_from(&plan.cfg, &plan.bounds, &plan.prefix, wall(Instant::now(), plan.secs.min(tier.pick(8, 300))), false);
+        let mut part = ex.part;
+        part.name = format!("traffic:{}", part.name);
+        add_found(&mut part, &plan.cfg, &plan.bounds, ex.found);
+        part.distinct_nontrivial = part.tally.get("c07_messages_checked").max(part.tally.get("c08_messages_checked"));
+        parts.push(part);
+    }
+    parts
+}
+
 /// Re-executes the committed replay files of known findings for `property` (they may lie beyond
 /// the quick budgets). Violations they still produce are reported with their cause signature.
 pub fn replay_known_findings(property: &'static str) -> Part {
